@@ -18,8 +18,11 @@ driver evaluates on every `ep_map_param` line for the constants READ from the ru
 * sign correction keeps the point on the curve; cofactor clearing lands in the r-torsion; try-and-increment terminates.
 Determinism holds by construction: specification and model are functions of the input bytes alone.
 
+* Edwards: Elligator 2 lands on the Montgomery curve for every u, the rational map lands on the twisted Edwards curve;
+  binary curves: a solution of the quadratic gives a curve point, the half-trace is a solution when the trace vanishes.
+
 Not theorems (class C, compared on the presented lines; see TRUSTED in tools/props/c13.py): the byte-level plumbing of the
-entry points, the group law after the maps (C03), the field oracles (C02), expand_message_xmd (C14), "the isogeny maps
+entry points, the C code of ed_map_ell2_5mod8 and eb_map (no model: compared with the specification only), the group law after the maps (C03), the field oracles (C02), expand_message_xmd (C14), "the isogeny maps
 curve points to curve points" (evaluated on the presented points), r·P = O end to end (needs #E = h·r, C18).
 -/
 import RelicVerif.Lemmas.MapToCurve
@@ -117,6 +120,34 @@ theorem swiftC_eq_swift (b tau u t : F) (s : Bool) (h2 : (2 : F) ≠ 0) :
     (swiftC (fOps isSq sqrt sgn0) b tau u t).map (fun c => swiftSelC (fOps isSq sqrt sgn0) 0 b c s) =
       swift (fOps isSq sqrt sgn0) ⟨0, b⟩ tau u t s :=
   Relic.Lemmas.MapToCurve.swiftC_eq_swift isSq sqrt sgn0 b tau u t s h2
+
+/-! ### Edwards (Elligator 2 + rational map) and binary curves (quadratic of eb_map) -/
+
+open Relic.Spec.H2CEd in
+/-- RFC 9380 §6.7.1 Elligator 2: for every u the output satisfies t² = s³ + J s² + s, given only that Z is a non-square -/
+theorem elligator2_on_curve (H : Oracle isSq sqrt) (J Z : F) (hZ : ¬ IsSquare Z) (u : F) :
+    (elligator2 (fOps isSq sqrt sgn0) J Z u).2 * (elligator2 (fOps isSq sqrt sgn0) J Z u).2 =
+      gMF J (elligator2 (fOps isSq sqrt sgn0) J Z u).1 :=
+  Relic.Lemmas.MapToCurve.elligator2_on_curve isSq sqrt sgn0 H J Z hZ u
+
+open Relic.Spec.H2CEd in
+/-- the Montgomery → twisted Edwards map (with its exceptional points) lands on −x² + y² = 1 + d x² y² -/
+theorem montToEd_on_curve (J c d s t : F) (hc : c * c = -(J + 2)) (hd : d * (J + 2) + (J - 2) = 0)
+    (hcurve : t * t = gMF J s) :
+    let vw := montToEd (fOps isSq sqrt sgn0) c (s, t)
+    vw.2 * vw.2 - vw.1 * vw.1 = 1 + d * (vw.1 * vw.1) * (vw.2 * vw.2) :=
+  Relic.Lemmas.MapToCurve.montToEd_on_curve isSq sqrt sgn0 J c d s t hc hd hcurve
+
+/-- eb_map: a solution λ of λ² + λ = (x³ + a x² + b)/x² gives the curve point (x, λ x) -/
+theorem eb_solution_on_curve (a b x l : F) (hx : x ≠ 0) (hl : l * l + l = (x ^ 3 + a * x ^ 2 + b) / (x * x)) :
+    (l * x) * (l * x) + x * (l * x) = x ^ 3 + a * x ^ 2 + b :=
+  Relic.Lemmas.MapToCurve.eb_solution_on_curve a b x l hx hl
+
+/-- the half-trace solves the quadratic whenever the trace vanishes (characteristic 2, m = 2n + 1, c^(2^m) = c) -/
+theorem halfTrace_solves {R : Type} [CommRing R] [CharP R 2] (c : R) (n : ℕ)
+    (hfrob : c ^ (2 ^ (2 * n + 1)) = c) (htr : ∑ j ∈ Finset.range (2 * n + 1), c ^ (2 ^ j) = 0) :
+    (∑ i ∈ Finset.range (n + 1), c ^ (4 ^ i)) ^ 2 + ∑ i ∈ Finset.range (n + 1), c ^ (4 ^ i) = c :=
+  Relic.Lemmas.MapToCurve.halfTrace_solves c n hfrob htr
 
 /-! ### sign, isogeny evaluation, cofactor, try-and-increment -/
 
